@@ -40,9 +40,64 @@ def abstract_states(events):
     return sorted(seen)
 
 
-def execute(prop, seed, scn=None, replay=None, full=False, tier="quick", max_steps=20000):
+def measure_lines(prop, seed, scn, replay, max_steps):
+    """Traced line events executed by each simulated process when nobody crashes
+    (forked child: identical pre-state, discarded afterwards)."""
+    import copy
+    from . import main as M
+
+    probe = copy.deepcopy(scn)
+    probe.setdefault("cfg", {})["trace"] = True
+    for p in probe["procs"]:
+        p.pop("crash", None)
+
+    def run():
+        from . import world
+
+        world.install()
+        r = Runner(probe, seed, replay=replay, max_steps=max_steps)
+        try:
+            r.run()
+            fin = r.final()
+            return {i: pr["lines"] for i, pr in fin["procs"].items()}
+        finally:
+            r.w.cleanup()
+
+    return M.in_child(run, timeout=25)
+
+
+def resolve_line_crash(prop, seed, scn, replay, max_steps):
+    need = [i for i, p in enumerate(scn.get("procs", [])) if "line_frac" in ((p.get("crash") or {}).get("trigger") or {})]
+    if not need:
+        return scn
+    import copy
+
+    scn = copy.deepcopy(scn)
+    lines = measure_lines(prop, seed, scn, replay, max_steps)
+    for i in need:
+        trig = scn["procs"][i]["crash"]["trigger"]
+        n = int((lines or {}).get(str(i), 0) or 0) if isinstance(lines, dict) and "harness" not in lines else 0
+        if n <= 0:
+            scn["procs"][i]["crash"]["trigger"] = {"step": 10 ** 9}
+        else:
+            scn["procs"][i]["crash"]["trigger"] = {"line": 1 + min(n - 1, int(trig["line_frac"] * n)), "of": n}
+    scn["cfg"]["trace"] = True
+    return scn
+
+
+def execute(prop, seed, scn=None, replay=None, full=False, tier="quick", max_steps=20000, extra=None):
     if scn is None:
         scn = workload.generate(prop, seed, tier)
+        if extra and extra.get("sweep_line") is not None:
+            # line sweep: same workload and schedule, crash point enumerated
+            import copy
+
+            scn = copy.deepcopy(scn)
+            victim = extra.get("victim", 0)
+            scn["procs"][victim]["crash"] = {"sig": extra.get("sig", "KILL"), "trigger": {"line": extra["sweep_line"], "of": extra.get("of")}}
+            scn["cfg"]["trace"] = True
+            scn["cfg"]["preempt"] = 0
+    scn = resolve_line_crash(prop, seed, scn, replay, max_steps)
     r = Runner(scn, seed, replay=replay, max_steps=max_steps)
     try:
         status = r.run()
